@@ -138,7 +138,38 @@ fn locate(input: &[u8], payload: &[u8]) -> (usize, usize, bool) {
     }
 }
 
+thread_local! {
+    static RX: std::cell::RefCell<Vec<u8>> = std::cell::RefCell::new(vec![0u8; 8192]);
+    static RX_SHARED: std::cell::Cell<bool> = const { std::cell::Cell::new(true) };
+}
+
+/// Environment choice: are all received packets delivered through one receive
+/// buffer (same address, as on a device with a single rx buffer -- the default)
+/// or does every packet live in its own allocation?
+pub fn set_rx_shared(shared: bool) {
+    RX_SHARED.with(|c| c.set(shared));
+}
+
+/// Deliver `bytes` to `f` through the thread's receive buffer.
+#[inline]
+fn with_rx<R>(bytes: &[u8], f: impl FnOnce(&[u8]) -> R) -> R {
+    if RX_SHARED.with(|c| c.get()) && bytes.len() <= 8192 {
+        RX.with(|b| {
+            let mut b = b.borrow_mut();
+            let n = bytes.len();
+            b[..n].copy_from_slice(bytes);
+            f(&b[..n])
+        })
+    } else {
+        f(bytes)
+    }
+}
+
 pub fn decode(ctx: &MCTPSMBusContext, input: &[u8]) -> DecOut {
+    with_rx(input, |input| decode_at(ctx, input))
+}
+
+fn decode_at(ctx: &MCTPSMBusContext, input: &[u8]) -> DecOut {
     match trap(|| match ctx.decode_packet(input) {
         Ok((t, p)) => {
             let (off, len, inside) = locate(input, p);
@@ -160,6 +191,10 @@ pub struct ProcOut {
 }
 
 pub fn process(ctx: &MCTPSMBusContext, input: &[u8], resp: &mut [u8]) -> ProcOut {
+    with_rx(input, |input| process_at(ctx, input, resp))
+}
+
+fn process_at(ctx: &MCTPSMBusContext, input: &[u8], resp: &mut [u8]) -> ProcOut {
     match trap(|| match ctx.process_packet(input, resp) {
         Ok(((t, p), n)) => {
             let (off, len, inside) = locate(input, p);
@@ -180,6 +215,10 @@ pub enum LenOut {
 }
 
 pub fn get_length(ctx: &MCTPSMBusContext, input: &[u8]) -> LenOut {
+    with_rx(input, |input| get_length_at(ctx, input))
+}
+
+fn get_length_at(ctx: &MCTPSMBusContext, input: &[u8]) -> LenOut {
     match trap(|| match ctx.get_length(input) {
         Ok(n) => LenOut::Ok(n),
         Err((t, e)) => LenOut::Err { ty: mt_u8(&t), err: ek(&e) },
@@ -408,6 +447,13 @@ pub fn apply(ctx: &mut MCTPSMBusContext, ev: &Event) -> StepObs {
             Ok(()) => StepOut::Unit,
             Err(m) => StepOut::Panic(m),
         },
+        Event::Encode { call, dst } => {
+            let mut scratch = [0u8; 600];
+            match encode(ctx, call, *dst, &mut scratch) {
+                EncOut::Panic(m) => StepOut::Panic(m),
+                _ => StepOut::Unit,
+            }
+        }
     };
     StepObs { out, eid_req: ctx.get_request().get_eid(), eid_resp: ctx.get_response().get_eid() }
 }
